@@ -352,7 +352,7 @@ func describe(g graph) string {
 	return strings.Join(parts, ",")
 }
 
-func programs(thorough bool) []prog {
+func programs(thorough, deep bool) []prog {
 	var ps []prog
 	// V: single file; n <= 3 with every assignment of edge kinds; n = 4 with a uniform kind per graph
 	for n := 1; n <= 4; n++ {
@@ -380,6 +380,33 @@ func programs(thorough bool) []prog {
 			} else {
 				if !thorough && e > 3 {
 					continue
+				}
+				if deep && e >= 2 && e <= 3 {
+					// thorough: 4 variables, every assignment of edge kinds on the graphs with 2 or 3 edges
+					// (the uniform assignments are produced below)
+					combos := 1
+					for k := 0; k < e; k++ {
+						combos *= len(kinds)
+					}
+					for c := 0; c < combos; c++ {
+						g := graph{n: n, deps: deps, kind: make([][]string, n)}
+						x, uniform, first := c, true, ""
+						for i := 0; i < n; i++ {
+							for range deps[i] {
+								kd := kinds[x%len(kinds)]
+								if first == "" {
+									first = kd
+								} else if kd != first {
+									uniform = false
+								}
+								g.kind[i] = append(g.kind[i], kd)
+								x /= len(kinds)
+							}
+						}
+						if !uniform {
+							ps = append(ps, singleFile(g, 0, fmt.Sprintf("V n=%d %s", n, describe(g))))
+						}
+					}
 				}
 				for _, kd := range kinds {
 					if e == 0 && kd != "direct" {
@@ -577,7 +604,7 @@ func main() {
 		}
 		os.Exit(0)
 	}
-	ps := programs(r.Thorough())
+	ps := programs(true, r.Thorough()) // quick tier = the former thorough space; thorough adds n=4 with mixed edge kinds
 	res := par.Map(len(ps), func(i int) *fail { return one(ps[i]) }, par.Opts{})
 	failing := map[string]bool{}
 	for _, f := range res.Outs {
